@@ -43,6 +43,8 @@ def evaluate(body, args, max_steps=500):
         k = body.kconst(o)
         if k and "i" in k:
             return int(k["i"])
+        if k and k.get("o") == "()":
+            return None
         raise Unsupported("constant %s" % k)
 
     while steps < max_steps:
@@ -97,7 +99,8 @@ def evaluate(body, args, max_steps=500):
             _set(env, t[3], res)
             bb = t[4]
         elif t[0] == "ret":
-            return env.get(0)
+            v = env.get(0)
+            return dict(v) if isinstance(v, dict) else v
         elif t[0] == "drop":
             bb = t[2]
         else:
